@@ -14,6 +14,8 @@ pub mod c13;
 pub mod c14;
 pub mod c15;
 pub mod c16;
+pub mod c18;
+pub mod c19;
 
 pub struct PropDef {
     pub meta: &'static Meta,
@@ -39,6 +41,8 @@ pub fn registry() -> Vec<PropDef> {
         PropDef { meta: &c12::META_C12, run: c12::run_c12, replay: c12::replay_c12, health: c12::health_c12 },
         PropDef { meta: &c16::META_C16, run: c16::run_c16, replay: c16::replay_c16, health: c16::health_c16 },
         PropDef { meta: &c16::META_C17, run: c16::run_c17, replay: c16::replay_c17, health: c16::health_c17 },
+        PropDef { meta: &c18::META, run: c18::run, replay: c18::replay, health: c18::health },
+        PropDef { meta: &c19::META, run: c19::run, replay: c19::replay, health: c19::health },
         PropDef { meta: &c12::META_C20, run: c12::run_c20, replay: c12::replay_c20, health: c12::health_c20 },
         PropDef { meta: &c13::META, run: c13::run, replay: c13::replay, health: c13::health },
         PropDef { meta: &c14::META, run: c14::run_all, replay: c14::replay, health: c14::health },
